@@ -146,8 +146,13 @@ def nf_tokens(b):
                 out.append(("num", v))
             else:
                 s = repr(v)
-                if "locktime" in s:
+                if re.fullmatch(r"((cast|into)\()*to_consensus_u32\(field\(locktime, '0'\)\)(, '?i64'?\))*", s):
+                    # the fragment's own lock value, all 32 bits of its consensus encoding, widened to i64
                     out.append(("num", "locktime"))
+                elif "locktime" in s:
+                    # the lock value through some other conversion (rust-bitcoin's relative::LockTime keeps 16 bits + the
+                    # unit flag, Height / Time keep the value only ...): not the number the fragment stands for
+                    out.append(("num", "locktime through " + s))
                 elif s in ("k", "cast(k, 'i64')") or re.fullmatch(r"(cast|into)\(k, '?i64'?\)", s):
                     out.append(("num", "k"))
                 else:
